@@ -588,6 +588,14 @@ def wireTable : List (Method × Option Nat × Option Nat) := [
   (.define_by_memory_address, (some 44), (some 2)),
   (.clear_dynamically_defined_data_identifier, (some 44), (some 3)) ]
 
+/-- what a public service method does besides building its request and handing it to `self.request`: nothing — except two dead
+    assignments to an unused local in `input_output_control_by_identifier` -/
+def bodies : List (Method × List String) :=
+  wireTable.map fun e =>
+    (e.1, if e.1 = .input_output_control_by_identifier then
+      ["pdu = struct.pack('!BH', UDSIsoServices.InputOutputControlByIdentifier, data_identifier)",
+       "pdu += control_option_record + control_enable_mask_record"] else [])
+
 /-- `ECU.transmit_data`, the statements `transmitCalls` below transcribes -/
 def transmitBody : List String := [
   "if block_length > max_block_length:",
